@@ -11,7 +11,7 @@ from simkit.targets import World, TStream
 from simkit.tape import digest_of
 
 ID = "C18"
-RUNS = {"quick": 150_000, "thorough": 5_000_000}
+RUNS = {"quick": 1_000_000, "thorough": 5_000_000}
 SIM_TIME_UNIT = "router calls"
 RULE = (
     "each run = a history of 3..14 operations on one StreamResultRouter: add_rule (route_code_prefix over a 3-segment "
